@@ -11,7 +11,7 @@ from .c01 import judge, OPTS
 
 def run(ctx):
     quick = ctx.tier == 'quick'
-    n = 150 if quick else 2400
+    n = 240 if quick else 3000
     base = 3000017 * (1 + ctx.seed % 1000)
     res = collect(ctx, range(base, base + n), dict(OPTS, scaling=True), 3 if quick else 6, want_runs=True)
     judge(ctx, res, clause_prefix='[with solver scaling] ')
